@@ -323,8 +323,12 @@ class Report:
         for sig, lst in sorted(known.items()):
             print(f"KNOWN-FINDING: property={self.pid} {self.findings[(self.pid, sig)]} [sig={sig}; {len(lst)} case(s) this run]")
         nviol = 0
-        for sig, lst in sorted(fresh.items()):
+        for nsig, (sig, lst) in enumerate(sorted(fresh.items())):
             nviol += len(lst)
+            if nsig >= 6:
+                if nsig == 6:
+                    print(f"  ... and {len(fresh) - 6} more failing signatures (see evidence)")
+                continue
             for text, payload in lst[:1]:
                 payload = dict(payload)
                 payload["property"] = self.pid
